@@ -66,6 +66,13 @@ Theorem C12_reencode_254_refuted :
 Proof. exact reencode_254_refuted. Qed.
 Print Assumptions C12_reencode_254_refuted.
 
+(* outside the property (it speaks of non-empty EBPs), recorded: an EMPTY EBP decodes, but Data() returns no bytes at all *)
+Theorem C12_reencode_empty_refuted :
+  (exists e, ReadEncoderBoundaryPoint false [169; 0] = Ok (Comcast, e) /\ IsEmpty e = true /\ fst (ComcastData e) = [])
+  /\ (exists e, ReadEncoderBoundaryPoint false [223; 0] = Ok (CableLabs, e) /\ IsEmpty e = true /\ fst (CableLabsData e) = []).
+Proof. exact empty_ebp_data. Qed.
+Print Assumptions C12_reencode_empty_refuted.
+
 (* non-vacuity: a populated EBP of each flavour meets the hypotheses *)
 Example C12_wf_comcast_example :
   wf_comcast (mkC true false true false (Some 255) (Some 3) (Some 29) (Some (4294967295, 2147483648)) [1; 2; 255]).
@@ -160,6 +167,23 @@ Theorem C12_ebptime_ntp : forall e : t, TimeSeconds e < 4294967296 -> TimeFracti
   EBPTime e = EbpSpec.ntp_ns (TimeSeconds e) (TimeFraction e).
 Proof. exact ebptime_ntp. Qed.
 Print Assumptions C12_ebptime_ntp.
+
+(* the same through the wire: SetEBPTime, Data(), decode, EBPTime *)
+Theorem C12_time_survives_wire_comcast : forall (g : bool) (e : t) (tm : Z),
+  cons_comcast (SetEBPTime e tm) -> TimeFlag e = true ->
+  (2147483648 * 1000000000 <= tm < (4294967296 + 2147483648) * 1000000000)%Z ->
+  exists e', ReadEncoderBoundaryPoint g (fst (ComcastData (SetEBPTime e tm))) = Ok (Comcast, e')
+             /\ (tm <= EBPTime e' <= tm + 1)%Z.
+Proof. exact time_survives_wire_comcast. Qed.
+Print Assumptions C12_time_survives_wire_comcast.
+
+Theorem C12_time_survives_wire_cablelabs : forall (g : bool) (e : t) (tm : Z),
+  cons_cablelabs (SetEBPTime e tm) -> TimeFlag e = true ->
+  (2147483648 * 1000000000 <= tm < (4294967296 + 2147483648) * 1000000000)%Z ->
+  exists e', ReadEncoderBoundaryPoint g (fst (CableLabsData (SetEBPTime e tm))) = Ok (CableLabs, e')
+             /\ (tm <= EBPTime e' <= tm + 1)%Z.
+Proof. exact time_survives_wire_cablelabs. Qed.
+Print Assumptions C12_time_survives_wire_cablelabs.
 
 (* F3: with the pinned (unclamped) fraction computation the statement is false; witness 1968-01-20T03:14:08.999999999Z *)
 Theorem C12_time_roundtrip_unrepaired_refuted : exists tm : Z,
